@@ -16,9 +16,10 @@ fn main() {
         return;
     }
     if args[0] == "fuzz-to-replay" {
-        // check fuzz-to-replay <ID> <artifact> <out.case>
+        // check fuzz-to-replay <ID> <artifact> <out.case> [gen]
         let data = std::fs::read(&args[2]).expect("artifact");
-        match smlverif::fuzz::to_replay(&args[1], &data) {
+        let text = if args.get(4).map(|s| s == "gen").unwrap_or(false) { smlverif::fuzz::to_replay_gen(&args[1], &data) } else { smlverif::fuzz::to_replay(&args[1], &data) };
+        match text {
             Some(t) => {
                 std::fs::write(&args[3], format!("# converted from libFuzzer artifact {}\n{}", args[2], t)).expect("write");
                 std::process::exit(0)
